@@ -11,6 +11,8 @@ static COUNTER: AtomicU64 = AtomicU64::new(0);
 pub struct SimDir {
     root: PathBuf,
     pub syscalls: u64,
+    /// read ends of the pipes that stand behind "pipe files" (kept open so that /proc/self/fd/<n> stays valid)
+    pipes: Vec<std::io::PipeReader>,
 }
 
 pub fn base() -> PathBuf {
@@ -28,7 +30,7 @@ impl SimDir {
         let root = base().join(format!("verif-sim-{}-{tag}-{n}", std::process::id()));
         let _ = std::fs::remove_dir_all(&root);
         std::fs::create_dir_all(&root).expect("simdir: create root");
-        SimDir { root, syscalls: 1 }
+        SimDir { root, syscalls: 1, pipes: vec![] }
     }
     pub fn path(&self) -> &Path {
         &self.root
@@ -91,6 +93,48 @@ impl SimDir {
         std::fs::create_dir_all(self.root.join(&real)).expect("simdir: mkdir styled");
         self.syscalls += 2;
         (real, given)
+    }
+    /// like `create`, but the entry is a PIPE: a symbolic link to /proc/self/fd/<read end of a pipe that holds the
+    /// bytes and has no writer left>. Opening it never blocks (a pipefs inode is re-opened without waiting for a
+    /// partner), reading delivers the bytes and then end-of-file, and `metadata().len()` answers 0 - the way named
+    /// pipes, `<(...)` substitutions, /dev/stdin and procfs files report a size that says nothing about the data.
+    /// One delivery per call of this function; falls back to a regular file when the bytes do not fit a pipe buffer
+    /// or procfs is not there. Returns true when a pipe was made. Deterministic: no second thread is involved.
+    pub fn create_pipe_file(&mut self, rel: &str, bytes: &[u8]) -> bool {
+        use std::io::Write;
+        use std::os::fd::AsRawFd;
+        if bytes.len() > 60_000 || !Path::new("/proc/self/fd").is_dir() {
+            self.create(rel, bytes);
+            return false;
+        }
+        let Ok((rx, mut tx)) = std::io::pipe() else {
+            self.create(rel, bytes);
+            return false;
+        };
+        if tx.write_all(bytes).is_err() {
+            self.create(rel, bytes);
+            return false;
+        }
+        drop(tx);
+        let p = self.root.join(rel);
+        if let Some(parent) = p.parent() {
+            std::fs::create_dir_all(parent).expect("simdir: mkdir");
+        }
+        let _ = std::fs::remove_file(&p);
+        std::os::unix::fs::symlink(format!("/proc/self/fd/{}", rx.as_raw_fd()), &p).expect("simdir: symlink to pipe");
+        self.pipes.push(rx);
+        self.syscalls += 5;
+        true
+    }
+    /// kind 0: regular file, 1: symbolic link to a regular file, 2: pipe
+    pub fn create_kind(&mut self, rel: &str, bytes: &[u8], kind: u8) {
+        match kind % 3 {
+            1 => self.create_link(rel, bytes),
+            2 => {
+                self.create_pipe_file(rel, bytes);
+            }
+            _ => self.create(rel, bytes),
+        }
     }
     fn store(&self) -> PathBuf {
         let mut name = self.root.file_name().map(|n| n.to_os_string()).unwrap_or_default();
